@@ -181,6 +181,7 @@ func c04Stream(cx *Ctx, N int) {
 			c04tok = tok
 			checkToken(cx, tok, c01Replay{tok, "", "v1-migration"}, nil)
 			cx.Count("v1-token")
+			chkGenericView(cx, "account", tok, &c.ClaimsData)
 			d, err := jwt.Decode(tok)
 			if err != nil {
 				cx.Violate("migration", "account: v2 decode err "+err.Error(), map[string]string{"v1_token": c04tok})
@@ -274,6 +275,7 @@ func c04Stream(cx *Ctx, N int) {
 			c04tok = tok
 			checkToken(cx, tok, c01Replay{tok, "", "v1-migration"}, nil)
 			cx.Count("v1-token")
+			chkGenericView(cx, "user", tok, &c.ClaimsData)
 			d, err := jwt.Decode(tok)
 			if err != nil {
 				cx.Violate("migration", "user: v2 decode err "+err.Error(), map[string]string{"v1_token": c04tok})
@@ -327,6 +329,7 @@ func c04Stream(cx *Ctx, N int) {
 			c04tok = tok
 			checkToken(cx, tok, c01Replay{tok, "", "v1-migration"}, nil)
 			cx.Count("v1-token")
+			chkGenericView(cx, "operator", tok, &c.ClaimsData)
 			d, err := jwt.Decode(tok)
 			if err != nil {
 				cx.Violate("migration", "operator: v2 decode err "+err.Error(), map[string]string{"v1_token": c04tok})
@@ -359,6 +362,7 @@ func c04Stream(cx *Ctx, N int) {
 			c04tok = tok
 			checkToken(cx, tok, c01Replay{tok, "", "v1-migration"}, nil)
 			cx.Count("v1-token")
+			chkGenericView(cx, "activation", tok, &c.ClaimsData)
 			d, err := jwt.Decode(tok)
 			if err != nil {
 				cx.Violate("migration", "activation: v2 decode err "+err.Error(), map[string]string{"v1_token": c04tok})
@@ -386,6 +390,14 @@ func c04Stream(cx *Ctx, N int) {
 			if rb() {
 				c.Data["k"] = rs()
 				c.Data["n"] = float64(rng.Intn(100))
+				if rng.Intn(3) == 0 {
+					// free-form data that uses the names the v1 kind and tags are re-homed under
+					c.Data["type"] = "data-" + rs()
+					c.Data["tags"] = []interface{}{"x"}
+					if rb() {
+						c.Tags.Add("T1")
+					}
+				}
 			} else if rb() {
 				c.Data = nil
 			}
@@ -420,6 +432,9 @@ func c04Stream(cx *Ctx, N int) {
 				chk(ok && eqS(tl, c.Tags), "generic: tags re-homed")
 			}
 			for k, v := range c.Data {
+				if (k == "type" && c.Type != "") || (k == "tags" && len(c.Tags) > 0) {
+					continue // the v1 kind / tags take these names (checked above)
+				}
 				chk(reflect.DeepEqual(g.Data[k], v), "generic: data carried")
 			}
 			d, err := jwt.Decode(tok)
@@ -429,6 +444,31 @@ func c04Stream(cx *Ctx, N int) {
 				chk(ok, "generic: general Decode returns generic")
 			}
 		}
+	}
+}
+
+// chkGenericView: the generic reader must carry over the kind and the standard fields of a typed version-1 token
+func chkGenericView(cx *Ctx, kind, tok string, cd *v1.ClaimsData) {
+	var g *jwt.GenericClaims
+	var err error
+	func() {
+		defer func() {
+			if r := recover(); r != nil {
+				err = fmt.Errorf("PANIC %v", r)
+			}
+		}()
+		g, err = jwt.DecodeGeneric(tok)
+	}()
+	if err != nil {
+		cx.Violate("migration", kind+": v2 DecodeGeneric err "+err.Error(), map[string]string{"v1_token": tok})
+		return
+	}
+	chk(g.Audience == cd.Audience && g.Name == cd.Name && g.Subject == cd.Subject && g.Issuer == cd.Issuer && g.ID == cd.ID && g.Expires == cd.Expires && g.NotBefore == cd.NotBefore && g.IssuedAt == cd.IssuedAt, kind+": generic view: standard fields")
+	chk(g.Data["type"] == kind, kind+": generic view: kind carried into the data")
+	chk(string(g.ClaimType()) == kind, kind+": generic view: reported kind")
+	if len(cd.Tags) > 0 {
+		tl, ok := g.Data["tags"].(jwt.TagList)
+		chk(ok && eqS(tl, cd.Tags), kind+": generic view: tags carried")
 	}
 }
 
